@@ -1,7 +1,7 @@
 ---- MODULE DBLocks ----
 (***************************************************************************)
-(* The twelve advisory locks of ONE LiteFS database (db.go:68-88) and the  *)
-(* processes that use them (property C11):                                 *)
+(* The twelve advisory locks of ONE LiteFS database (db.go, struct DB) and  *)
+(* the processes that use them (property C11):                             *)
 (*                                                                         *)
 (*  - client owners = SQLite connections.  Every client action is ONE FUSE *)
 (*    lock request (fuse/database_node.go, fuse/shm_node.go: lock/Unlock/  *)
@@ -33,7 +33,19 @@
 (* (a mode switch needs a page-1 write, outside the lock model); blocking  *)
 (* RLock/Lock of the snapshot sequence are enabled exactly when the Try    *)
 (* call succeeds; Unlock(WRITE)'s side effect (CommitWAL) is not part of   *)
-(* the lock model.                                                         *)
+(* the lock model; WAL writes are tested as coded against the WRITE mutex  *)
+(* (not the writer's own guard) - the owner-specific reading is the        *)
+(* property WalWriteByHolder, checked in MC_DBLocks_lead_walowner.cfg.     *)
+(*                                                                         *)
+(* Binding (harness/checks/c11): with EmitEdges TLC prints one STATE line  *)
+(* per distinct state with ALL outgoing edges (actor, request, predicted   *)
+(* result, actor's guards afterwards); the harness rebuilds paths by a     *)
+(* search over this relation and walks the graph on a real node.  The real *)
+(* TryAcquireWriteLock can only be paused (OnLockStateChange) after a lock *)
+(* call that changes a mutex state, or when it returns: with Gated = TRUE  *)
+(* the other processes move only at those points ("gate" in ipc), so every *)
+(* edge of a Gated graph is realisable; the invariants are model-checked   *)
+(* with Gated = FALSE, i.e. for every interleaving.                        *)
 (***************************************************************************)
 EXTENDS Integers, Sequences, FiniteSets, TLC, Json
 
@@ -48,6 +60,7 @@ CONSTANTS
   SkipLock,     \* "none" = as coded; a lock name = relevance mutation (TryAcquireWriteLock skips it)
   TxNoLock,     \* TRUE = model the /tx handler as coded: an internal page write that takes no lock (known defect)
   WalGuard,     \* TRUE = as coded (WAL writes need some WRITE holder); FALSE = relevance mutation
+  WalOwnerTest, \* FALSE = as coded (the test looks at the WRITE mutex); TRUE = candidate repair (the writer's own guard)
   Exclude,      \* request names removed from the clients' vocabulary (bounds the quick configurations)
   Gated,        \* TRUE: interleave other processes only where the real TryAcquireWriteLock can be paused (replay cfgs)
   EmitEdges     \* TRUE: print one STATE line per distinct state with all its outgoing edges
@@ -72,7 +85,7 @@ WriteSet == Conflict
 
 VARIABLES g,     \* g[o][l] \in {"U","S","X"}: guard state of owner o on lock l
           ipc,   \* per internal writer: [st, k, gate]
-          spc,   \* snapshot sequence: 0 = idle, i = next step, "reading" section marked in SnapProg
+          spc,   \* snapshot sequence: 0 = idle, k = index of the next step of SnapProg (beyond it: releasing)
           last   \* observable result of the last action (output only, hidden by VIEW)
 
 vars == <<g, ipc, spc, last>>
@@ -88,7 +101,7 @@ CanR(gg, o, l) == \A p \in Owners \ {o} : gg[p][l] # "X"     \* POSIX: shared vs
 
 Range(s) == {s[i] : i \in 1..Len(s)}
 
-(* DB.TryLocks (db.go:3079): sequential, earlier ones kept, CKPT gate *)
+(* DB.TryLocks: sequential, earlier ones kept, CKPT gate *)
 RECURSIVE TryW(_, _, _)
 TryW(gg, o, ls) ==
   IF ls = <<>> THEN [g |-> gg, ok |-> TRUE]
@@ -98,7 +111,7 @@ TryW(gg, o, ls) ==
     ELSE IF CanW(gg, o, l) THEN TryW([gg EXCEPT ![o][l] = "X"], o, Tail(ls))
          ELSE [g |-> gg, ok |-> FALSE]
 
-(* DB.TryRLocks (db.go:3140): sequential, earlier ones kept, no gate *)
+(* DB.TryRLocks: sequential, earlier ones kept, no gate *)
 RECURSIVE TryR(_, _, _)
 TryR(gg, o, ls) ==
   IF ls = <<>> THEN [g |-> gg, ok |-> TRUE]
@@ -159,9 +172,9 @@ Allowed(h, r) ==
     [] n = "ResvW"       -> h["SHARED"] = "S" /\ h["RESERVED"] = "U" /\ h["PENDING"] = "U"
     [] n = "PendW"       -> h["SHARED"] = "S" /\ h["PENDING"] = "U"
     [] n = "SharedW"     -> h["PENDING"] = "X" /\ h["SHARED"] = "S"
-    [] n = "PendResvU"   -> h["SHARED"] = "S" /\ (h["PENDING"] # "U" \/ h["RESERVED"] # "U")
-    [] n = "DbUnlockAll" -> \E l \in DbLocks : h[l] # "U"
-    [] n = "DbFlush"     -> \E l \in DbLocks : h[l] # "U"
+    [] n = "PendResvU"   -> h["SHARED"] = "S" /\ ~(h["PENDING"] = "U" /\ h["RESERVED"] = "U")
+    [] n = "DbUnlockAll" -> ~(\A l \in DbLocks : h[l] = "U")
+    [] n = "DbFlush"     -> ~(\A l \in DbLocks : h[l] = "U")
     [] n = "DmsR"        -> h["DMS"] \in {"U", "X"}
     [] n = "DmsW"        -> h["DMS"] = "U"
     [] n = "WriteW"      -> h["DMS"] = "S" /\ h["WRITE"] = "U"
@@ -174,7 +187,7 @@ Allowed(h, r) ==
     [] n = "RecovU"      -> h["RECOVER"] = "X"
     [] n = "RestartW"    -> h["DMS"] = "S" /\ h["WRITE"] = "X" /\ \A k \in 1..4 : h[RD(k)] = "U"
     [] n = "RestartU"    -> \A k \in 1..4 : h[RD(k)] = "X"
-    [] n = "ShmFlush"    -> \E l \in ShmLocks : h[l] # "U"
+    [] n = "ShmFlush"    -> ~(\A l \in ShmLocks : h[l] = "U")   \* (not \E: TLC would count one successor per witness)
     [] n = "WalWrite"    -> h["DMS"] = "S"
     [] r.t = "R" /\ Len(r.ls) = 1 /\ r.ls[1] \in Reads -> h["DMS"] = "S" /\ NoRead(h)
     [] r.t = "W" /\ Len(r.ls) = 1 /\ r.ls[1] \in Reads -> h["DMS"] = "S" /\ NoRead(h)
@@ -182,7 +195,7 @@ Allowed(h, r) ==
     [] OTHER -> FALSE
 
 (* ------------------------------------------------------------------ *)
-(* internal writer: DB.TryAcquireWriteLock (db.go:2952)                *)
+(* internal writer: DB.TryAcquireWriteLock                              *)
 (* ------------------------------------------------------------------ *)
 St(op, l) == [op |-> op, l |-> l]
 Prog0 == IF Mode = "rollback"
@@ -194,7 +207,7 @@ Prog0 == IF Mode = "rollback"
 Keep(s) == ~(s.op = "W" /\ s.l = SkipLock)
 Prog == SelectSeq(Prog0, Keep)
 
-\* WriteSnapshotTo / Export (db.go:3359, 2691); "READING" marks the section in which pages are read
+\* WriteSnapshotTo / Export; "READING" marks the section in which pages are read
 SnapProg ==
   << St("R", "PENDING"), St("R", "SHARED"), St("U", "PENDING") >>
   \o (IF Mode = "wal" THEN << St("W", "WRITE"), St("U", "WRITE") >> ELSE << >>)
@@ -227,7 +240,7 @@ ClientEff(gg, c, r) ==
     [] r.t = "R" -> TryR(gg, c, r.ls)
     [] r.t \in {"U", "F"} -> [g |-> Unl(gg, c, r.ls), ok |-> TRUE]
     [] r.t = "A" -> \* writeWALHeader / writeWALFrameHeader / writeWALFrameData: db.writeLock.State() test
-                    [g |-> gg, ok |-> (~WalGuard) \/ MS(gg, "WRITE") = "X"]
+                    [g |-> gg, ok |-> (~WalGuard) \/ (IF WalOwnerTest THEN gg[c]["WRITE"] = "X" ELSE MS(gg, "WRITE") = "X")]
 ClientEn(gg, pc, c, r) == (Gated => AtGate(pc)) /\ Allowed(gg[c], r)
 
 \* one step of TryAcquireWriteLock
